@@ -8,6 +8,12 @@ use crate::runner::*;
 use std::collections::BTreeMap;
 
 /// one edit of a listed kind somewhere in the tree; returns the edited tree and the kind
+/// position of a byte that is invalid UTF-8 on its own whatever follows: a byte that can never occur (>= 0xF5), or a continuation byte
+/// (0x80..=0xBF) at the start or after an ASCII byte — flipping its last bit gives another such byte and the same lossy decoding
+fn invalid_at(b: &[u8]) -> Option<usize> {
+  b.iter().enumerate().position(|(i, v)| *v >= 0xf5 || ((0x80..=0xbf).contains(v) && (i == 0 || b[i - 1] < 0x80)))
+}
+
 pub fn edit_tree(rng: &mut Rng, t: &T) -> Option<(T, &'static str)> {
   // descend with probability, else edit here
   match t {
@@ -24,6 +30,12 @@ pub fn edit_tree(rng: &mut Rng, t: &T) -> Option<(T, &'static str)> {
   match t {
     T::Raw(s) => Some((T::Raw(tweak(s, rng)), "leaf-text")),
     T::RawStr(s) => Some((T::RawStr(tweak(s, rng)), "leaf-text")),
+    // a different invalid byte in the same place: the lossy text stays the same, the buffer does not (seed S94)
+    T::RawB(b) | T::RawBuf(b) if invalid_at(b).is_some() && rng.chance(2) => {
+      let mut x = b.clone(); let i = invalid_at(b).unwrap();
+      x[i] = if x[i] >= 0xf5 { if x[i] == 0xff { 0xfe } else { x[i] + 1 } } else { x[i] ^ 1 };
+      Some((if matches!(t, T::RawB(_)) { T::RawB(x) } else { T::RawBuf(x) }, "leaf-invalid-byte"))
+    }
     T::RawB(b) => { let mut x = b.clone(); x.push(b'q'); Some((T::RawB(x), "leaf-text")) }
     T::RawBuf(b) => { let mut x = b.clone(); x.push(b'q'); Some((T::RawBuf(x), "leaf-text")) }
     T::Orig(s, n) => if rng.chance(2) { Some((T::Orig(tweak(s, rng), n.clone()), "leaf-text")) } else { Some((T::Orig(s.clone(), tweak(n, rng)), "original-name")) },
